@@ -52,6 +52,20 @@ def cases(rng, tier):
     return cs
 
 
+def tail_boundary_sizes(limit):
+    """K' whose initial dense tail (P = L - W columns) ends on or next to a 64-bit word boundary"""
+    import re
+    src = open(C.REPO + "/src/systematic_constants.rs").read()
+    body = src[src.index("SYSTEMATIC_INDICES_AND_PARAMETERS") :]
+    body = body[body.index("= [") : body.index("];")]
+    out = []
+    for m in re.finditer(r"\((\d+),\s*(\d+),\s*(\d+),\s*(\d+),\s*(\d+)\)", body):
+        kp, j, s, h, w = (int(x) for x in m.groups())
+        if kp <= limit and (kp + s + h - w) % 64 in (63, 0, 1):
+            out.append(kp)
+    return out
+
+
 def with_thr(c, thr):
     a = list(c.args)
     if c.fn == "codec_hist":
@@ -100,9 +114,42 @@ def evaluate(cs, rep, tier):
         for (c, v), r in zip(vs, vr):
             if r != br[c.key()]:
                 counter.append({"input": v.impl_line()[:700], "expected": "packets equal to Encoder::new's: " + br[c.key()][:100], "observed": r[:100], "profile": p, "oracle": "plan origin / cache independence"})
+    # larger blocks whose dense tail starts at a word boundary: sparse vs dense back-end, release build only
+    # (the debug profile's solver self-checks make K > 1000 take minutes; the model is not needed for this equality)
+    big = tail_boundary_sizes(2000 if tier == "quick" else 7000)
+    rb = C.Rng(C.get_seed()).fork("C07big")
+    bc = []
+    for kp in big:
+        data = CG.rand_data(rb, kp)
+        esis = [e for e in range(kp) if e not in (1, 5)] + [kp + 3, kp + 40, kp + 1000]
+        for variant, thr in ((0, 0), (2, 0), (2, 1 << 31)):
+            bc.append((kp, C.Case("variant_packets", [1, variant, thr, 3] + data)))
+        for thr in (1, 100000):
+            bc.append((kp, CG.sbd_case(rb, kp, 1, 1, 1, thr, [esis], data)))
+    br = C.run_impl_crashsafe([c for _, c in bc], "release", chunk=1, timeout=900) if bc else []
+    bykp = {}
+    for (kp, c), r in zip(bc, br):
+        bykp.setdefault((kp, c.fn), []).append((c, r))
+    for (kp, fn), lst in bykp.items():
+        if len(set(r for _, r in lst)) > 1 or any(r.startswith("0") or r.startswith("CRASH") for _, r in lst):
+            c, r = next(((c, r) for c, r in lst if r != lst[0][1] or r.startswith("0") or r.startswith("CRASH")), lst[-1])
+            counter.append({"input": c.impl_line()[:300] + " ...", "expected": f"identical result on the sparse and the dense back-end for K' = {kp}: " + lst[0][1][:60], "observed": r[:80], "oracle": "back-end independence at dense-tail word boundaries"})
+    # every CPU-dependent kernel path computes the same bytes (the property's kernel axis; proofs in C11)
+    from props import C11 as K
+    kc = [c for c in K.cases(C.Rng(C.get_seed()).fork("C07kern"), "quick") if c.fn in ("k_add", "k_mul", "k_fma") and (c.args[2] if c.fn == "k_add" else c.args[3]) % 7 in (0, 3)]
+    kres = C.run_impl(kc, "release")
+    groups = {}
+    for c, r in zip(kc, kres):
+        key = (c.fn, tuple(c.args[2:])) if c.fn == "k_add" else (c.fn, tuple(c.args[2:]))
+        want = K.elementwise(c)
+        tok = r.split()
+        if tok[0] != "1" or [int(x) for x in tok[1:-1]] != want:
+            counter.append({"input": c.impl_line()[:500], "expected": "the same bytes on every kernel path: " + str(want[:12]), "observed": " ".join(tok[:16]), "oracle": "kernel-path independence (path %d)" % c.args[0]})
+            break
     nt = sum(1 for c in cs if c.fn in ("codec_hist", "sbd_hist"))
     return {"disagreements": dis, "counterexamples": counter,
             "stats": {"evaluations": len(cs) * 6 + len(dec) * 8 + len(vs) * 2, "distinct_nontrivial": nt,
+                      "tail_boundary_block_sizes": big, "kernel_path_cases": len(kc),
                       "builds_compared": [f"{a}/{b}" for a, b in results], "thresholds": ["default 250", "sparse (0)", "dense (99999)"],
                       "encoder_variants": ["new (warm cache)", "with_encoding_plan(generate)", "direct sparse", "direct dense", "new (cold cache)"],
                       "samples": [cs[0].impl_line()[:200] + " ... -> " + base[0][:60]],
